@@ -46,6 +46,20 @@ def rng_checks():
         if not _state_eq(s0, np.random.get_state()):
             fails.append(f'tmp_seed (body raises) leaves the generator changed [{prep}]')
         np.random.set_state(s0)
+
+        class _Stop(BaseException):
+            pass
+        for exc_cls in (KeyboardInterrupt, SystemExit, GeneratorExit, _Stop):
+            # exceptions that are not Exception subclasses (an interrupted notebook cell, a cancelled task)
+            try:
+                with utils.tmp_seed(42):
+                    np.random.normal(size=3)
+                    raise exc_cls()
+            except BaseException:
+                pass
+            if not _state_eq(s0, np.random.get_state()):
+                fails.append(f'tmp_seed (body left through {exc_cls.__name__}) leaves the generator changed [{prep}]')
+            np.random.set_state(s0)
         with warnings.catch_warnings():
             warnings.simplefilter('ignore')
             df = mocker.canonical_demo_data()
